@@ -512,4 +512,79 @@ def rawKidsOKKids : List Tmpl → Bool
   | t :: ts => rawKidsOK t && rawKidsOKKids ts
 end
 
+/-! ### the finding classes, as the driver attaches them to a failing verdict -/
+
+/-- what the expansion does with each part of a template: `belem` an element built by the builder path,
+`btext` a string rendered by tachys (with the `escape` flag it is rendered under), `iroot` the root of a
+subtree printed at macro time -/
+inductive Seen where
+  | belem (tag : Str) (attrs : List TAttr) (kids : List Tmpl)
+  | btext (escape : Bool) (s : Str)
+  | iroot (t : Tmpl)
+
+mutual
+def seenNode (top escape : Bool) : Tmpl → List Seen
+  | .text s => [.btext escape s]
+  | .block s => [.btext escape s]
+  | .elem tag attrs kids =>
+    if !top && isInert (.elem tag attrs kids) then [.iroot (.elem tag attrs kids)]
+    else .belem tag attrs kids :: (if macroIsVoid tag then [] else seenKids false (escapeChildren tag) kids)
+  | .frag kids => seenKids true escape kids
+  | .comp kids => .belem sSection [] kids :: seenKids true true kids
+def seenKids (top escape : Bool) : List Tmpl → List Seen
+  | [] => []
+  | t :: ts => seenNode top escape t ++ seenKids top escape ts
+end
+
+def hasSpecial (s : Str) : Bool := s.any (fun c => c = '<' || c = '>' || c = '&')
+
+def textSpecial : Tmpl → Bool
+  | .text s => hasSpecial s
+  | _ => false
+
+mutual
+/-- a `noscript` element with a literal child that `encode_text` changes -/
+def hasNoscriptText : Tmpl → Bool
+  | .elem tag _ kids => (tag = tNoscript && kids.any textSpecial) || hasNoscriptTextKids kids
+  | _ => false
+def hasNoscriptTextKids : List Tmpl → Bool
+  | [] => false
+  | t :: ts => hasNoscriptText t || hasNoscriptTextKids ts
+end
+
+def adjacentTexts : List Tmpl → Bool
+  | a :: b :: r => (isTextLike a && isTextLike b) || adjacentTexts (b :: r)
+  | _ => false
+
+/-- class `noscript-inert`: a subtree printed at macro time contains `<noscript>` with text that the macro
+escapes although a parser (scripting enabled) reads it as raw text -/
+def Seen.noscriptInert : Seen → Bool
+  | .iroot t => hasNoscriptText t
+  | _ => false
+
+/-- class `rawtext-marker`: a builder-path element whose content is not tokenised as markup
+(`script style textarea noscript title`) has two adjacent string children: tachys separates them by `<!>` -/
+def Seen.rawMarker : Seen → Bool
+  | .belem tag _ kids => (!escapeChildren tag || tag = tTitle) && adjacentTexts kids
+  | _ => false
+
+/-- class `class-unicode-ws`: a builder-path element has a class string with Unicode-only white space -/
+def Seen.classWs : Seen → Bool
+  | .belem _ attrs _ => !(attrs.flatMap attrClassStrings).all wsOK
+  | _ => false
+
+/-- class `empty-text`: tachys renders an empty string child of an escaping element as `" "` -/
+def Seen.emptyText : Seen → Bool
+  | .btext true [] => true
+  | _ => false
+
+/-- the class of a failing input -/
+def findingClass (ts : List Tmpl) : Option Nat :=
+  let l := seenKids true true ts
+  if l.any Seen.noscriptInert then some 0
+  else if l.any Seen.rawMarker then some 1
+  else if l.any Seen.classWs then some 2
+  else if l.any Seen.emptyText then some 3
+  else none
+
 end Leptos.Macro
